@@ -9,7 +9,11 @@
    index <view> <ix> [<ix> ...]                -> <value|view|none> <materialise (view[ix][ix]..)> <np.array(view)[ix][ix]..>   (none | nd)
    reduce <max|min> <T|F initial> <view> [<ix> ...]
                                                -> grid:<t> | grid:none | mat:<max|min>:<init|noinit>:<nd> | none | nochain
+   ufwhere <mask> <xbytes> <T/F,..> <out> <add|sub|mul> <c>
+                                               -> buffer after np.<op>(view, c, out=buffer, where=mask) | none
+   concat <view> <view> ...                    -> <nd of np.concatenate([view, ...])> <nd of the joined grids scaled with the first view's scaling>
    view:  1 <xs>  |  2 <k> <row;row;...>       (values comma separated, - = empty)
+          1s <scale index> <offset index> <xs>  |  2s <k> <first scale/offset index> <row;row;...>
    ix:    int:<i> | slice:<ps> | adv:<ps> | row:i<i> | row:s<ps> | pair:<ax>:<ax> | zip:<ps>:<js>    ax = i<n> | s<ps>
    nd:    sc:<t> | a1:<n>:<t,t,..> | a2:<n>:<k>:<t,t,..>     t = <scale index>.<offset index>.<grid value>
    The scaled values are symbolic triples: the harness evaluates (x * scale[s]) + offset[o] in binary64. *)
@@ -79,7 +83,15 @@ let view_of_toks a i =
       let rows = if a.(i + 2) = "-" then [] else List.map zlist_of_tok (String.split_on_char ';' a.(i + 2)) in
       let idx = List.init k z_of_int in
       (V2 (rows, idx, idx), i + 3)
+  | "1s" -> (V1 (zlist_of_tok a.(i + 3), z_of_string a.(i + 1), z_of_string a.(i + 2)), i + 4)
+  | "2s" ->
+      let k = int_of_string a.(i + 1) and base = int_of_string a.(i + 2) in
+      let rows = if a.(i + 3) = "-" then [] else List.map zlist_of_tok (String.split_on_char ';' a.(i + 3)) in
+      let idx = List.init k (fun j -> z_of_int (base + j)) in
+      (V2 (rows, idx, idx), i + 4)
   | s -> failwith ("view " ^ s)
+
+let rec views_of_toks a i = if i >= Array.length a then [] else let (v, j) = view_of_toks a i in v :: views_of_toks a j
 
 let axis_of_tok t =
   let rest = String.sub t 1 (String.length t - 1) in
@@ -139,6 +151,18 @@ let handle line =
           | PlanGrid None -> "grid:none"
           | PlanMaterialised (r, i0, nd) -> "mat:" ^ red_name r ^ ":" ^ (match i0 with Some _ -> "init" | None -> "noinit") ^ ":" ^ tok_of_nd nd
           | PlanNone -> "none"))
+  | "ufwhere" ->
+      let m = z_of_string a.(1) and c = z_of_string a.(6) in
+      let g = (match a.(5) with
+               | "add" -> (fun v -> Z.add v c) | "sub" -> (fun v -> Z.sub v c) | "mul" -> (fun v -> Z.mul v c)
+               | s -> failwith ("ufunc " ^ s)) in
+      let mask = if a.(3) = "-" then [] else List.map bool_of_tok (String.split_on_char ',' a.(3)) in
+      (match sfv_ufunc_where g m (bytes_of_tok a.(2)) mask (zlist_of_tok a.(4)) with
+       | Some r -> tok_of_zlist r
+       | None -> "none")
+  | "concat" ->
+      let vs = views_of_toks a 1 in
+      tok_of_ndo (concatenate_views ap vs) ^ " " ^ tok_of_ndo (concat_grid_first ap vs)
   | c -> failwith ("unknown command " ^ c)
 
 let () =
